@@ -1,87 +1,87 @@
 NOTES = ("All checks: ./check <ID> <quick|thorough>; exit 0 held on everything observed, 1 VIOLATION (with replay file under /verif/replays/<ID>/), "
          "2 harness or quick-xml does not build, 3 inconclusive (a required observation counter stayed zero, a worker died irreproducibly, watchdog). "
-         "Known findings: /verif/known_findings.json (F6 known; F1-F5, F7 fixed in /repo). VERIF_SEED selects the random part; the exhaustive parts ignore it. "
+         "Known findings: /verif/known_findings.json (F6 known; F1-F5, F7-F11 fixed in /repo). VERIF_SEED selects the random part; the exhaustive parts ignore it. "
          "Every check is runtime monitoring: the real quick-xml code (path dependency on /repo, rebuilt from its working tree) is executed and an oracle at the API boundary judges every execution.")
 NOT_BUILT = {}
 TB = "Trusted: rustc/std, the harness adapters (harness/src/sources.rs), "
 
 prop("C01", "exploration",
-     "Runtime monitoring with a reference model: the real slice reader runs in lock-step with an independent index-based tokenizer (R_tok) on every byte string up to length 6/7 over the 13 markup bytes, every sequence of up to 4/5 markup atoms, all 128 configurations on a smaller enumeration, plus grammar documents, mutants, truncations at every offset and the repository corpus. Held on what was observed; exhaustive only inside the stated alphabets and lengths.",
-     TB + "the reference tokenizer R_tok (harness/src/refmodel/tok.rs). Empty Text events are ignored (C16), DoubleHyphen error offsets are not compared.",
+     "Runtime monitoring with a reference model: the real reader (borrowing, and for the sampled inputs also buffering) runs in lock-step with an independent index-based tokenizer (R_tok) on every byte string up to length 6/7 over the 13 markup bytes, every sequence of up to 4/5 markup atoms, all 128 configurations on a smaller enumeration, plus grammar documents, mutants, truncations at every offset and the repository corpus. Held on what was observed; exhaustive only inside the stated alphabets and lengths.",
+     TB + "the reference tokenizer R_tok (harness/src/refmodel/tok.rs). An empty Text event is accepted only at the exact sites of known finding F6 (judged by C16); error positions are observed, not judged.",
      "runtime monitor: lock-step differential against a reference tokenizer (R_tok)")
 prop("C02", "exploration",
-     "Runtime relational monitoring over schedules owned by the harness: the slice trace is compared entry by entry (events, errors, positions) with the buffered trace over every cut set (all 2^(n-1) for short inputs, piece sizes 1/2/3/7 and random cuts beyond) and with the async trace under Pending scripts (all scripts with <=2 Pendings per piece for <=4 pieces). Cooperative schedules are enumerated deterministically, not provoked by stress.",
+     "Runtime relational monitoring over schedules owned by the harness: the slice trace is compared entry by entry (events, errors, positions) with the buffered trace over every cut set (all 2^(n-1) for short inputs, piece sizes 1/2/3/7 and random cuts beyond) and with the async trace under Pending scripts (all scripts with <=2 Pendings per piece for <=4 pieces); raw stream() reads (Read and BufRead side, async with a re-polled ReadBuf) are interleaved between events and the event buffer is also reused without clearing. Cooperative schedules are enumerated deterministically, not provoked by stress.",
      TB + "the slice reader as baseline (judged by C01).",
      "runtime monitor: relational comparison of three source kinds under enumerated chunkings and Pending scripts")
 prop("C03", "exploration",
-     "Runtime totality monitoring: every read call and every payload accessor runs under catch_unwind with assertions on the call bound (2*len+3), sticky Eof, position monotonicity and error-position order; all byte strings of length <=2 over 256 values, length 3 over a 48-class set, enumerations and millions of random/mutated inputs; Reader and NsReader; slice, buffered and async sources. Thorough tier repeats the workload on a plain-release build and under ASan, valgrind memcheck and Miri.",
+     "Runtime totality monitoring: every read call and every payload accessor runs under catch_unwind with assertions on the call bound (2*len+3), sticky Eof, position monotonicity and error-position order; all byte strings of length <=2 over 256 values, length 3 over a 48-class set, enumerations and millions of random/mutated inputs; Reader and NsReader; slice, buffered and async sources; read_to_end / read_text calls after any event for any open element; raw stream() reads. Thorough tier repeats the workload on a plain-release build and under ASan, valgrind memcheck and Miri.",
      TB + "termination is judged by the logical call bound, never by wall-clock time.",
      "runtime monitor: catch_unwind + invariant assertions; sanitizer layers (Miri, ASan, valgrind) in the thorough tier")
 prop("C04", "exploration",
-     "Runtime monitoring with a reference model of the open-element stack, in lock-step, over every tag sequence up to length 6/7 x all 16 settings of the four switches and every single-switch flip at every call index for sequences up to length 4/5, plus random multi-flip histories on longer documents.",
+     "Runtime monitoring with a reference model of the open-element stack, in lock-step, over every tag sequence up to length 6/7 x all 16 settings of the four switches and every single-switch flip at every call index for sequences up to length 4/5, plus random multi-flip histories on longer documents, incl. names that are not valid UTF-8; error positions are observed, not judged.",
      TB + "R_tok's open-stack rules.",
      "runtime monitor: lock-step differential against R_tok's open-element stack under configuration-flip histories")
 prop("C05", "exploration",
-     "Runtime monitoring with a scope-stack reference model (R_ns) driven by consumer call histories: after every Start/Empty/End and after every skip, resolve_element/resolve_attribute for the event's names and a fixed probe set, the set from prefixes(), the result of read_resolved_event and has_nil are compared with the model; all skip/read_text choices (3^k) for small documents, random histories beyond; slice, buffered, async; expand-empty on/off.",
+     "Runtime monitoring with a scope-stack reference model (R_ns) driven by consumer call histories: after every Start/Empty/End and after every skip, resolve_element/resolve_attribute for the event's names and a fixed probe set, the set from prefixes(), the result of read_resolved_event and has_nil are compared with the model; all skip/read_text choices (3^k) for small documents (directly after the start tag, after a child event, and of an ancestor from inside a descendant), random histories beyond; slice, buffered, async; expand-empty on/off.",
      TB + "R_tok/R_attr as tools for token streams and attribute lists.",
      "runtime monitor: reference scope model over consumer call histories")
 prop("C06", "exploration",
-     "Runtime round-trip monitoring: values of 16 derive types covering every documented mapping row are serialized under the 36 serializer configurations and deserialized back; equality with the original is the oracle. Exhaustive single/double character sweeps in 8 string positions x 36 configurations.",
+     "Runtime round-trip monitoring: values of 30 derive types covering every documented mapping row (and the less common serializer protocols collect_str and serialize_key+serialize_value) are serialized under the 36 serializer configurations and deserialized back; equality with the original is the oracle. Exhaustive single/double character sweeps in 8 string positions x 36 configurations. A second layer (novl) repeats the workload on a harness built without quick-xml's overlapped-lists feature.",
      TB + "serde derive; the domain restrictions listed in the evidence file's assumptions are taken from the crate documentation.",
      "runtime monitor: serialize/deserialize round trip with equality oracle")
 prop("C07", "exploration",
-     "Runtime totality monitoring of the deserializer: token-level mutants, truncations at every byte and token soup for 44 target types and both entry points run under catch_unwind; a stall detector on logical progress reports cases that do not return. Thorough tier repeats on plain-release, ASan and Miri builds.",
+     "Runtime totality monitoring of the deserializer: token-level mutants, truncations at every byte and token soup for about 150 target types and both entry points run under catch_unwind, plus documents in legacy encodings with names outside ASCII; a stall detector on logical progress reports cases that do not return and every worker caps its address space so that a runaway allocation ends as a reported death. A second layer (novl) repeats the workload without the overlapped-lists feature. Thorough tier repeats on plain-release, ASan and Miri builds.",
      TB + "the stall detector thresholds (30 s / 90 s without a finished case).",
      "runtime monitor: catch_unwind + stall detector over mutated documents; sanitizer layers in the thorough tier")
 prop("C08", "exploration",
-     "Runtime monitoring with a reconstruction oracle: for every successful read the input bytes between the positions reported before and after the call must equal the markup rebuilt from the event, spans must tile from 0 to the input length, and Writer output must equal the spans; slice and buffered sources; same input space as C01 plus BOM inputs.",
+     "Runtime monitoring with a reconstruction oracle: for every successful read the input bytes between the positions reported before and after the call must equal the markup rebuilt from the event, spans must tile from 0 to the input length, and Writer output (into a sink that takes 1, 2, 3 or any number of bytes per call) must equal the spans; slice and buffered sources (event buffer also reused without clearing); same input space as C01 plus BOM inputs.",
      TB + "the 40-line reconstruct(event) function. Positions are literal input offsets.",
      "runtime monitor: span reconstruction and tiling oracle, read-write round trip")
 prop("C09", "exploration",
-     "Runtime round-trip monitoring against a model of the builder calls: call sequences with hostile payloads are written through four writer paths (sync/async write_event, sync/async ElementWriter), the byte strings compared, read back and compared with the model (names, unescaped attribute values and texts, CDATA pieces, declarations).",
+     "Runtime round-trip monitoring against a model of the builder calls: call sequences with hostile payloads are written through four writer paths (sync/async write_event, sync/async ElementWriter; also into sinks that take short writes, answer Pending, or refuse one write call; also on start tags that still borrow their content), the byte strings compared, read back and compared with the model (names, unescaped attribute values and texts, CDATA pieces, declarations).",
      TB + "the model of calls in harness/src/monitors/c09.rs; documented preconditions of the constructors are respected by the generator.",
      "runtime monitor: write-read round trip against a call model; sync/async writer equivalence")
 prop("C10", "exploration",
-     "Runtime monitoring with round-trip and reference oracles: all strings up to length 6/7 over a 13-symbol alphabet and atom sequences up to 4/5 for the three escape levels and for unescape against a 40-line reference unescaper; EVERY code point 0..=0x110020 in 8 valid and 12 malformed spellings; random Unicode strings.",
+     "Runtime monitoring with round-trip and reference oracles: all strings up to length 6/7 over a 13-symbol alphabet and atom sequences up to 4/5 for the three escape levels and for unescape against a 40-line reference unescaper; EVERY code point 0..=0x110020 in 8 valid and 16 malformed spellings; entity names of every byte length up to 80; a custom and a total resolver; random Unicode strings.",
      TB + "the reference unescaper.",
      "runtime monitor: escape/unescape round trip + reference unescaper, exhaustive over code points")
 prop("C11", "exploration",
-     "Runtime monitoring with a reference model of the attribute grammar and its documented recovery points: all tag contents up to 7/9 symbols over 8 attribute-significant bytes x XML/HTML x duplicate checks on/off, plus generated attribute lists with injected faults.",
+     "Runtime monitoring with a reference model of the attribute grammar and its documented recovery points: all tag contents up to 7/9 symbols over 8 attribute-significant bytes x XML/HTML x duplicate checks on/off, plus generated attribute lists with injected faults; with_checks re-asserted between items; the relation 'set_name does not change the attributes'.",
      TB + "R_attr (harness/src/refmodel/attr.rs) encodes the recovery positions documented on AttrError.",
      "runtime monitor: differential against a reference attribute parser (R_attr)")
 prop("C12", "exploration",
-     "Runtime monitoring on reader clones: at every Start event of every generated document read_to_end / read_to_end_into / read_to_end_into_async / read_text is called on a clone; span, next event, configuration restoration and text are compared with R_tok spans and an independent depth match; truncations exercise the failure path.",
+     "Runtime monitoring on reader clones: at every Start event of every generated document read_to_end / read_to_end_into / read_to_end_into_async / read_text is called on a clone; span, next event, configuration restoration and text are compared with R_tok spans and an independent depth match; truncations exercise the failure path; the enclosing element is also skipped from inside each child.",
      TB + "R_tok token spans.",
      "runtime monitor: clone-and-skip differential against token spans")
 prop("C13", "exploration",
-     "Runtime monitoring of serializer output: every Ok document is read with all checks on, every name validated by an independent XML 1.1 Name validator, and for family values a non-interference check compares the markup skeleton and every payload slot of the hostile document with a markup-free twin generated from the same seed; 28 extra shapes outside the round-trip domain and arbitrary root names.",
+     "Runtime monitoring of serializer output: every Ok document is read with all checks on, every name validated by an independent XML 1.1 Name validator, and for family values a non-interference check compares the markup skeleton and every payload slot of the hostile document with a markup-free twin generated from the same seed; 63 extra shapes outside the round-trip domain, arbitrary root names, every entry point (to_string, to_writer, to_utf8_io_writer, Writer::write_serializable) and sinks that stop accepting data.",
      TB + "the reader as a tool; the Name validator written from the XML 1.1 productions.",
      "runtime monitor: well-formedness via the reader, independent Name validator, non-interference (twin documents)")
 prop("C14", "exploration",
-     "Runtime relational monitoring: from_str vs from_reader over ChunkedRead (piece sizes 1,2,3,7, whole, random cut sets) on valid, mutated, truncated and soup documents for 44 owned target types; Ok values must be equal, otherwise both must fail.",
+     "Runtime relational monitoring: from_str vs from_reader over ChunkedRead (piece sizes 1,2,3,7, whole, random cut sets) on valid, mutated, truncated and soup documents for about 150 owned target types (and a second layer without the overlapped-lists feature); Ok values must be equal, otherwise both must fail.",
      TB + "error values are not compared.",
      "runtime monitor: relational comparison of two deserializer entry points under chunkings")
 prop("C15", "exploration",
-     "Runtime metamorphic monitoring: 18 information-preserving rewrites are applied to the serializer's output (every site for documents of <=12 tokens, random compositions beyond) and the rewritten document must deserialize to the same value.",
+     "Runtime metamorphic monitoring: 20 information-preserving rewrites are applied to the serializer's output (every site for documents of <=12 tokens, random compositions beyond) and the rewritten document must deserialize to the same value.",
      TB + "the element naming convention of the family as site table; R_tok/R_attr as tools.",
      "runtime monitor: metamorphic rewrites with value-equality oracle")
 prop("C16", "exploration",
-     "Runtime relational monitoring: the real reader's trace under each of the 128 configurations is compared with the documented transformation of its own neutral trace (expansion, trimming, name trimming, comment and name checks, positions); exhaustive over byte strings up to length 5/6 x 128 configurations. Known finding F6 is matched by an exact signature.",
+     "Runtime relational monitoring: the real reader's trace under each of the 128 configurations is compared with the documented transformation of its own neutral trace (expansion, trimming, name trimming, comment and name checks, positions); exhaustive over byte strings up to length 5/6 x 128 configurations; a probe checks that no read call (incl. a failing read_to_end) leaves the configuration different from what the caller set. Known finding F6 is matched by an exact signature.",
      TB + "the transformation T_c in harness/src/monitors/c16.rs.",
      "runtime monitor: relational comparison under the documented configuration transformation")
 prop("C17", "exploration",
-     "Runtime relational monitoring over all 36 ASCII-compatible encoding_rs encodings: generated documents with representable characters in every construct are encoded, labelled and read (slice and buffered); decoded payloads must equal the originals; malformed sequences (confirmed by encoding_rs) must be rejected by decode/unescape; the encoding state machine paths and the repository's encoding corpus are exercised. Thorough tier adds Miri and ASan.",
+     "Runtime relational monitoring over all 36 ASCII-compatible encoding_rs encodings: generated documents with representable characters in every construct are encoded, labelled and read (slice and buffered); decoded payloads must equal the originals; malformed sequences (confirmed by encoding_rs) must be rejected by decode/unescape; the CDATA-to-text conversions, a failing first refill, short byte-order-mark inputs, the deserializer over documents with Cyrillic names in legacy encodings, the encoding state machine paths and the repository's encoding corpus are exercised. Thorough tier adds Miri and ASan.",
      TB + "encoding_rs as oracle for representability and malformedness.",
      "runtime monitor: transcoding relation against the UTF-8 original; sanitizer layers in the thorough tier")
 prop("C18", "fault_enumeration",
-     "Runtime fault enumeration at the BufRead/AsyncBufRead boundary: for every (document, configuration, cut set) explored, EVERY refill call index is used as the fault point, once with Interrupted (trace must be unchanged) and once with another error kind (prefix equal, Err(Io) with the injected kind from the call that consumed the fault, not reported twice); multi-interrupt scripts; sync and async.",
+     "Runtime fault enumeration at the BufRead/AsyncBufRead boundary: for every (document, configuration, cut set) explored, EVERY refill call index is used as the fault point, once with Interrupted (trace must be unchanged) and once with another error kind (prefix equal, Err(Io) with the injected kind from the call that consumed the fault, not reported twice, and whatever is returned afterwards is Eof or the fault-free continuation); multi-interrupt scripts; sync and async.",
      TB + "fault injection delivers the error from exactly one refill call and the data unchanged afterwards.",
      "runtime monitor: exhaustive single-fault enumeration over refill calls with fault-free trace as oracle")
 prop("C19", "exploration",
-     "Runtime relational monitoring: every event-kind sequence up to length 5/6 is written plain and indented (3 characters x widths 0..9) with the sink length sampled before each event; the indented piece must be [newline + indent] + plain piece with the prefix only where allowed; async equality; read-back equality; long/deep/unbalanced random sequences; serde: indented vs plain token streams and deserialized values for the family.",
+     "Runtime relational monitoring: every event-kind sequence up to length 5/6 is written plain and indented (3 characters x widths 0..9) with the sink length sampled before each event; the indented piece must be [newline + indent] + plain piece with the prefix only where allowed; async equality; read-back equality; long/deep/unbalanced random sequences; explicit write_indent; serde: indented vs plain token streams and deserialized values for the family, also through Writer::write_serializable inside an open element.",
      TB + "the reader and R_tok as tools for read-back.",
      "runtime monitor: per-event relational comparison of plain and indenting writers; serde indentation relation")
 prop("C20", "exploration",
-     "Runtime metamorphic monitoring: for generated values of 6 shapes all order-preserving interleavings of the child elements x every event-buffer limit are deserialized; result must be the original value or TooManyEvents, never Ok below the lower bound B of events to hold, monotone in the limit; random interleavings for larger sizes; reader entry point.",
+     "Runtime metamorphic monitoring: for generated values of 9 shapes all order-preserving interleavings of the child elements x every event-buffer limit are deserialized; result must be the original value or TooManyEvents, never Ok below the lower bound B of events to hold, monotone in the limit; random interleavings for larger sizes; reader entry point.",
      TB + "B is a lower bound only (tight in >99% of the explored cases).",
      "runtime monitor: metamorphic interleavings with value-equality, lower-bound and monotonicity oracles")
